@@ -132,11 +132,15 @@ theorem filter_le_lt (used : List Nat) (i : Nat) (h : i ∈ used) :
         · simp [h1, h2]; omega
         · simp [h1, h2]; exact this
 
-/-- `idx = start; while (tag, idx) in self.nodes: idx += 1` – the repaired name generation -/
-def freshIdx (used : List Nat) (i : Nat) : Nat :=
-  if h : i ∈ used then freshIdx used (i + 1) else i
-termination_by (used.filter (fun x => decide (i ≤ x))).length
-decreasing_by exact filter_le_lt used i h
+/-- the loop `while (tag, idx) in self.nodes: idx += 1` with an explicit bound on the iterations -/
+def freshAux (used : List Nat) : Nat → Nat → Nat
+  | 0, i => i
+  | fuel + 1, i => if i ∈ used then freshAux used fuel (i + 1) else i
+
+/-- `idx = start; while (tag, idx) in self.nodes: idx += 1` – the repaired name generation.
+`used.length + 1` iterations always suffice (`freshIdx_not_mem`), so the bound is never what stops
+the loop. -/
+def freshIdx (used : List Nat) (i : Nat) : Nat := freshAux used (used.length + 1) i
 
 /-! ## one method call on one object
 
@@ -167,7 +171,15 @@ def nameF (c : Cfg) (w : Local) : Nat :=
 def nameS (c : Cfg) (w : Local) : Nat :=
   if c.lenNaming then w.r.ss.length else freshIdx (sNames w.o.nodes) w.r.ss.length
 
-/-- `add_f_node` (augmented.py L47-95) -/
+/-- the part of `add_f_node` after the checks: new node, edges to the targets, registry entry -/
+def addFok (c : Cfg) (w : Local) (ts : List Nat) (dom : Option (List Nat)) : Local :=
+  let k := nameF c w
+  { w with
+      o := { w.o with nodes := insertNew w.o.nodes (.f k),
+                      aedges := w.o.aedges ++ ts.map (fun t => (Node.f k, t)) },
+      r := { w.r with fs := dSet w.r.fs k ⟨ts, dom.getD [1]⟩ } }
+
+/-- `add_f_node` (augmented.py) -/
 def addF (c : Cfg) (w : Local) (ts : List Nat) (uniq : Bool) (dom : Option (List Nat)) : Local × Status :=
   -- len(frozenset(intervention_set)) != len(intervention_set)
   if ¬ ts.Nodup then (w, .err)
@@ -175,12 +187,7 @@ def addF (c : Cfg) (w : Local) (ts : List Nat) (uniq : Bool) (dom : Option (List
   else if uniq && w.r.fs.any (fun p => sameSet p.2.targets ts) then (w, .err)
   -- every target must be a node
   else if ts.any (fun t => decide (Node.ord t ∉ w.o.nodes)) then (w, .err)
-  else
-    let k := nameF c w
-    ({ w with
-        o := { w.o with nodes := insertNew w.o.nodes (.f k),
-                        aedges := w.o.aedges ++ ts.map (fun t => (Node.f k, t)) },
-        r := { w.r with fs := dSet w.r.fs k ⟨ts, dom.getD [1]⟩ } }, .ok)
+  else (addFok c w ts dom, .ok)
 
 /-- `add_f_nodes_from`: `add_f_node` one after the other, the first exception aborts -/
 def addFs (c : Cfg) (w : Local) : List (List Nat) → Local × Status
@@ -190,25 +197,29 @@ def addFs (c : Cfg) (w : Local) : List (List Nat) → Local × Status
     | (w', .ok) => addFs c w' rest
     | (w', .err) => (w', .err)
 
-/-- `add_s_node` (augmented.py L157-187).  The test `domain_ids in self.domain_ids` compares a tuple
+/-- the part of `add_s_node` after the checks -/
+def addSok (c : Cfg) (w : Local) (d : Nat × Nat) (chg : List Nat) : Local :=
+  let k := nameS c w
+  let w1 : Local := if c.classDoms then { w with cd := addAll w.cd [d.1, d.2] }
+                    else { w with o := { w.o with doms := addAll w.o.doms [d.1, d.2] } }
+  { w1 with
+      o := { w1.o with nodes := addAll (insertNew w1.o.nodes (.s k)) (chg.map Node.ord),
+                       aedges := w1.o.aedges ++ chg.map (fun t => (Node.s k, t)) },
+      r := { w1.r with ss := dSet w1.r.ss k d } }
+
+/-- `add_s_node` (augmented.py).  The test `domain_ids in self.domain_ids` compares a tuple
 with a list of ints and never fires; `node_changes` need not be nodes (add_edge creates them). -/
 def addS (c : Cfg) (w : Local) (d : Nat × Nat) (chg : List Nat) : Local × Status :=
-  if ¬ chg.Nodup then (w, .err)
-  else
-    let k := nameS c w
-    let w1 : Local := if c.classDoms then { w with cd := addAll w.cd [d.1, d.2] }
-                      else { w with o := { w.o with doms := addAll w.o.doms [d.1, d.2] } }
-    ({ w1 with
-        o := { w1.o with nodes := addAll (insertNew w1.o.nodes (.s k)) (chg.map Node.ord),
-                         aedges := w1.o.aedges ++ chg.map (fun t => (Node.s k, t)) },
-        r := { w1.r with ss := dSet w1.r.ss k d } }, .ok)
+  if ¬ chg.Nodup then (w, .err) else (addSok c w d chg, .ok)
+
+/-- the node and its incident edges are gone -/
+def dropOk (w : Local) (n : Node) : Local :=
+  { w with o := { w.o with nodes := w.o.nodes.filter (fun m => m ≠ n),
+                            aedges := w.o.aedges.filter (fun e => e.1 ≠ n ∧ Node.ord e.2 ≠ n) } }
 
 /-- `MixedEdgeGraph.remove_node`: error when absent, else drop the node and its incident edges -/
 def dropNode (w : Local) (n : Node) : Local × Status :=
-  if n ∈ w.o.nodes then
-    ({ w with o := { w.o with nodes := w.o.nodes.filter (· ≠ n),
-                              aedges := w.o.aedges.filter (fun e => e.1 ≠ n ∧ Node.ord e.2 ≠ n) } }, .ok)
-  else (w, .err)
+  if n ∈ w.o.nodes then (dropOk w n, .ok) else (w, .err)
 
 /-- `remove_node(('F', k))` of both classes -/
 def rmF (w : Local) (k : Nat) : Local × Status :=
